@@ -36,8 +36,19 @@ var matrix = []base{
 	{"rm=1&nm=2&bo=100", 3, 4, "backoff"},
 	{"rm=1&nm=2&mfaults=drop,leader-unavailable", 3, 4, "meta"},
 	{"rm=1&nm=3&np=1&fm=2", 2, 3, "nofreq close"},
+	// a full buffer (Flush.MaxMessages) while a request is in flight: later input waits for space inside the broker worker
+	{"rm=2&nm=5&np=1&fx=2&policy=input", 2, 3, "maxmsgs wait"},
+	{"idem=1&rm=2&nm=5&np=1&fx=2&policy=input", 2, 3, "idem maxmsgs wait"},
+	{"rm=1&nm=4&parts=0,0,1,0&nb=1&fx=2&policy=input", 2, 3, "maxmsgs wait multi"},
 	{"closeany=1&rm=1&nm=2", 3, 4, "close"},
 	{"closeany=1&idem=1&rm=1&nm=2&fm=2&ff=100", 3, 4, "close idem"},
+}
+
+// Deep scenarios: minimal alphabets (one produce fault, one metadata fault, no gates) explored to a larger
+// deviation bound: histories such as "fault, metadata failure at the fin, later a second retry cycle".
+var deep = []base{
+	{"rm=2&nm=3&np=1&df=notleader&mfaults=drop&nogates=1", 5, 7, "deep"},
+	{"idem=1&rm=2&nm=3&np=1&df=timeout-appended&mfaults=drop&nogates=1", 4, 6, "deep idem"},
 }
 
 // Scenarios returns the producer scenario list judged for one property.
@@ -71,6 +82,16 @@ func Scenarios(prop string) []gx.Sc {
 			}
 		}
 		out = append(out, gx.Sc{Name: "prod?" + q + "&faults=" + faults + "&gates=" + Gates, Q: m.b, T: m.t})
+	}
+	if prop == "C01" || prop == "C02" || prop == "C05" || prop == "C04" {
+		for _, m := range deep {
+			if prop == "C05" && !strings.Contains(m.tags, "idem") {
+				continue
+			}
+			q := strings.Replace(m.q, "&df=", "&faults=", 1)
+			q = strings.Replace(q, "&nogates=1", "&gates="+Gates, 1) // (gates are needed for determinism, not only for exploration)
+			out = append(out, gx.Sc{Name: "prod?" + q, Q: m.b, T: m.t})
+		}
 	}
 	if prop == "C18" {
 		out = append(out, gx.Sc{Name: "prod?rm=1&nm=2&icpt=2&icptpanic=1&faults=" + Faults + "&gates=" + Gates, Q: 2, T: 3})
